@@ -207,6 +207,45 @@ func newMerged() *merged {
 	return &merged{Events: map[string]int{}, Distinct: map[string]int{}, Races: map[string]int{}}
 }
 
+// addRaces counts the race reports of one child by signature (m.mu held) and keeps the first full
+// report of every signature under replays/race-diagnostics/ so that a diagnostic can be analysed
+// after the child's directory is gone. Race reports never decide a property by themselves.
+func (m *merged) addRaces(stderr string) {
+	sigs := raceSigs(stderr)
+	if len(sigs) == 0 {
+		return
+	}
+	blocks := strings.Split(stderr, "WARNING: DATA RACE")[1:]
+	for i, s := range sigs {
+		m.Races[s]++
+		if m.Races[s] != 1 || i >= len(blocks) {
+			continue
+		}
+		dir := filepath.Join(os.Getenv("VERIF_DIR"), "replays", "race-diagnostics")
+		if os.Getenv("VERIF_DIR") == "" || os.MkdirAll(dir, 0o755) != nil {
+			continue
+		}
+		id := "X"
+		if len(os.Args) > 2 {
+			id = os.Args[2]
+		}
+		name := strings.Map(func(r rune) rune {
+			if r >= 'a' && r <= 'z' || r >= 'A' && r <= 'Z' || r >= '0' && r <= '9' || r == '.' || r == '-' {
+				return r
+			}
+			return '_'
+		}, s)
+		if len(name) > 120 {
+			name = name[:120]
+		}
+		b := blocks[i]
+		if j := strings.Index(b, "=================="); j >= 0 {
+			b = b[:j]
+		}
+		os.WriteFile(filepath.Join(dir, id+"-"+name+".txt"), []byte("WARNING: DATA RACE"+b), 0o644)
+	}
+}
+
 // crashSig extracts a short stable signature from a Go panic/fatal trace: the message plus the first Zeno frame.
 func crashSig(stderr string) string {
 	msg := ""
@@ -290,9 +329,7 @@ func absorb(r interface {
 }, m *merged, res *childResult, label string, scenario any, crashIsViolation bool) *childReport {
 	m.mu.Lock()
 	m.Children++
-	for _, s := range raceSigs(res.Stderr) {
-		m.Races[s]++
-	}
+	m.addRaces(res.Stderr)
 	m.mu.Unlock()
 	if crashed, excerpt := res.Crashed(); crashed && !res.TimedOut {
 		if crashIsViolation {
